@@ -249,6 +249,13 @@ def _uri_block(case, ctx, utils):
                 return
             n += 1
             nt += len(uri) >= 4
+            if (n & 15) == 0 and "/" in uri:
+                # classification is a function of the string: ask again for a relative that shares a normalised form (the
+                # URI without its slashes, in lower / upper case) right after the URI itself
+                for rel in (uri.replace("/", ""), uri.strip("/"), "/" + uri):
+                    if not _check_uri(rel, ctx, utils, None):
+                        return
+                    n += 1
     ctx.bulk(n, nt)
 
 
